@@ -141,6 +141,18 @@ theorem layout_multibyte {bits : Nat} (h : multiByte bits) (o : Order) {buf : Li
   have := loadBytes_digit hw hl hj
   cases o <;> simpa [Order.alt] using this
 
+/-- The same down to the bit: bit `k` of pixel `i` is bit `k % 8` of the byte at
+`i*n + k/8` (`LittleEndianMsb0`) resp. `i*n + (n-1-k/8)` (`BigEndianLsb0`). -/
+theorem layout_multibyte_bit {bits : Nat} (h : multiByte bits) (o : Order) {buf : List Nat}
+    {i v : Nat} (hw : BytesOk buf) (hl : load bits o buf i = some v) {k : Nat} (hk : k < bits) :
+    ∃ b, buf[i * (bits / 8) + (match o with | .le => k / 8 | .be => bits / 8 - 1 - k / 8)]? = some b ∧
+      v.testBit k = b.testBit (k % 8) := by
+  rw [load_multi h] at hl
+  have hk' : k < 8 * (bits / 8) := by rcases h with rfl | rfl | rfl <;> omega
+  obtain ⟨b, hb, ht⟩ := loadBytes_testBit hw hl hk'
+  refine ⟨b, ?_, ht⟩
+  cases o <;> simpa [Order.alt] using hb
+
 /-- The bytes written by a multi-byte `store` are the base-256 digits of the value:
 `v % 256, v / 256 % 256, ...` (little endian; reversed for big endian). -/
 theorem to_le_bytes_spec (v : Nat) :
@@ -201,6 +213,26 @@ theorem size_hint_brackets (it : Iter) (hb : validBits it.bits = true) (hf : it.
     it.sizeHint.1 ≤ it.toList.length ∧ ∀ u, it.sizeHint.2 = some u → it.toList.length ≤ u := by
   rw [size_hint_exact it hb hf]
   exact ⟨Nat.le_refl _, fun u hu => by cases hu; exact Nat.le_refl _⟩
+
+/-- The guard `Iter.Fits` is needed only in the model's saturating arithmetic: the unguarded claim ... -/
+def size_hint_exact_unguarded : Prop :=
+  ∀ it : Iter, validBits it.bits = true → it.sizeHint = (it.toList.length, some it.toList.length)
+
+/-- ... fails exactly where `len.saturating_mul(8 / bits)` saturates: a 2^61-byte slice of 1-bit
+pixels holds 2^64 pixels, `size_hint` answers `(usize::MAX, Some(usize::MAX))`. Such a slice
+cannot be allocated, so this is an observation about the model's boundary, not a replayable
+defect (the upper bound would have to be `None` there). -/
+theorem size_hint_saturates_beyond_fits : ¬ size_hint_exact_unguarded := by
+  intro h
+  obtain ⟨data, hd⟩ : ∃ data : List Nat, data.length = 2305843009213693952 :=
+    ⟨List.replicate 2305843009213693952 0, List.length_replicate⟩
+  have h1 := h ⟨1, .le, data, 0⟩ rfl
+  have h2 := Iter.toList_length ⟨1, .le, data, 0⟩ rfl
+  rw [h2] at h1
+  simp only [Iter.sizeHint, Iter.count, pixelCount, satMulUsize, usizeMax, hd,
+    Nat.reduceLT, ↓reduceIte, Nat.reduceDiv, Nat.reduceMul, Nat.reduceLeDiff,
+    Nat.sub_zero, Prod.mk.injEq] at h1
+  omega
 
 /-! ### Non-vacuity: concrete instances of the hypotheses used above -/
 
